@@ -124,6 +124,16 @@ class ForeignGen:
                 m[ident] = (cur if isinstance(cur, list) else [cur]) + [rec]      # record array for a repeated identifier
             else:
                 m[ident] = [rec] if r.random() < 0.1 else rec
+        if r.random() < 0.2:
+            # an identifier carrying an *array* of memberships, some listing several entities
+            ident = self.name(prefixes, default) if r.random() < 0.5 else "_:mm%d" % r.randint(1, 9)
+            arr = []
+            for _ in range(r.randint(2, 3)):
+                rec = {"prov:collection": self.name(prefixes, default)}
+                ents = [self.name(prefixes, default) for _ in range(r.choice([1, 1, 2, 3]))]
+                rec["prov:entity"] = ents if len(ents) > 1 or r.random() < 0.3 else ents[0]
+                arr.append(rec)
+            c.setdefault("hadMember", {})[ident] = arr
         return c
 
     def document(self):
